@@ -391,9 +391,7 @@ def dispatchMacroStatOptsTextExpr (cfg : Cfg) (c : Char) : Prog Unit := do
     | .macroStat => popMode
     | .none =>
       advance_
-      -- sic: the Rust calls the scanner of the *other* mode here (its debug assertion
-      -- then fires in debug builds)
-      lexMacroStringUnrestricted cfg
+      lexMacroStringStatOpts cfg
     | .macroCall => pure ()
   else if c == ';' then popMode
   else if isWhitespace c then lexWs cfg
